@@ -1,5 +1,6 @@
 import RPVerif.Model.Launch
 import RPVerif.Lemmas.Launch
+import RPVerif.Gen.Exec
 
 /-!
 # C09 — Launch commands enact the placement they were given
@@ -468,5 +469,54 @@ example : (erfFrom 0 [⟨1, [[0], [1]], [0]⟩, ⟨1, [[2], [3]], [1]⟩, ⟨2, 
 /-- outside the hypothesis of `palsFill_uniform` the ranks do NOT fall where the placement has
     them (host 5: 1 rank, host 7: 2 ranks): this case is not claimed -/
 example : palsFill 2 [5, 7] 3 ≠ [(5, 1), (7, 2)] := by decide
+
+/-! ### flavours of one launch-method family (round 17) -/
+
+/-- every entry of the registry holds the inspection of the name it is filed under -/
+def RegOK (reg : List (LMName × LMName)) : Prop := ∀ e ∈ reg, e.2 = e.1
+
+theorem lmCreate_ok (reg : List (LMName × LMName)) (n : LMName) (h : RegOK reg) :
+    RegOK (lmCreate true reg n).1 ∧ (lmCreate true reg n).2 = n := by
+  unfold lmCreate
+  cases hf : reg.find? (fun e => e.1 = lmKey true n) with
+  | some e =>
+    have hm : e ∈ reg := List.mem_of_find?_eq_some hf
+    have hk : e.1 = lmKey true n := by
+      have := List.find?_some hf
+      simpa using this
+    refine ⟨h, ?_⟩
+    simp only
+    rw [h e hm, hk]; simp [lmKey]
+  | none =>
+    refine ⟨?_, rfl⟩
+    intro e he
+    simp only [List.mem_append, List.mem_singleton] at he
+    rcases he with he | rfl
+    · exact h e he
+    · simp [lmKey]
+
+theorem lmCreateAll_ok (ns : List LMName) : ∀ (reg : List (LMName × LMName)), RegOK reg → RegOK (lmCreateAll true reg ns) := by
+  induction ns with
+  | nil => intro reg h; exact h
+  | cons n ns ih =>
+    intro reg h
+    simp only [lmCreateAll, List.foldl_cons]
+    exact ih _ (lmCreate_ok reg n h).1
+
+/-- **C09 for platforms that configure several flavours of one launcher**: with the inspection result of a launch method
+    looked up and stored under its own name (`Gen.lmInfoKeyPerName`, read from LaunchMethod.__init__), whatever launch
+    methods were created before - of the same family or not, in any order - a launch method initialises from the
+    inspection of ITS name: its flags (mpt, rsh, dplace, ccmrun, erf ...) are its own, so the command it writes is the one
+    it writes when created alone -/
+theorem C09_flavours_keep_their_flags (before : List LMName) (n : LMName) :
+    (lmCreate Gen.lmInfoKeyPerName (lmCreateAll Gen.lmInfoKeyPerName [] before) n).2 = n := by
+  have e : Gen.lmInfoKeyPerName = true := by decide
+  rw [e]
+  exact (lmCreate_ok _ n (lmCreateAll_ok before [] (by intro e he; simp at he))).2
+
+/-- one key per family hands the second flavour the flags of the first -/
+theorem C09_flavours_witness :
+    (lmCreate false (lmCreateAll false [] [⟨1, 0⟩]) ⟨1, 2⟩).2 = ⟨1, 0⟩
+    ∧ (lmCreate true (lmCreateAll true [] [⟨1, 0⟩]) ⟨1, 2⟩).2 = ⟨1, 2⟩ := by decide
 
 end RPVerif.C09
